@@ -32,7 +32,7 @@ func vfStopScenarios() []vfScenario {
 		cfg.Timeout = 30
 		cfg.Quiet = true
 		cfg.Bufsize = 4096 // many chunks, so that many stop points lie mid-file
-		sc = append(sc, vfScenario{name, cfg, tops, specs})
+		sc = append(sc, vfScenario{Name: name, Cfg: cfg, Tops: tops, Specs: specs})
 	}
 	add("down-files", vfCfg{Dir: "down", Direct: true}, []string{"first.bin", "second.bin", "third.txt"}, big)
 	add("up-files", vfCfg{Dir: "up", Direct: true, Binary: true}, []string{"first.bin", "second.bin", "third.txt"}, big)
